@@ -155,3 +155,70 @@ def metric_line(rnd, invalid_p=0.12, ts=None, ws_p=0.15):
         line = " ".join(parts).encode("utf-8", "surrogateescape")
     tsu = ts & 0xFFFFFFFF
     return line, fbits(v), tsu
+
+
+def history_case(rnd, nphases=(2, 4), nlines=(6, 14), **kw):
+    """a table, traffic, and changes applied to the *running* table between bursts of traffic (addRewriter / delRewriter /
+    addBlack / delBlack by index incl. one beyond the end, modRoute, modDest); later bursts repeat earlier names so that
+    anything remembered per name from before a change would show"""
+    t = table(rnd, **kw)
+    nbl = sum(1 for l in t if l.startswith("bl "))
+    nrw = sum(1 for l in t if l.startswith("rw "))
+    routes = []   # (kind, ndests)
+    for l in t:
+        if l.startswith("route "):
+            routes.append([l.split()[1], 0])
+        elif l.startswith("dest "):
+            routes[-1][1] += 1
+    out = list(t)
+    seen = []
+    for ph in range(rnd.randint(*nphases)):
+        for _ in range(rnd.randint(*nlines)):
+            if seen and rnd.random() < 0.55:
+                out.append(rnd.choice(seen))
+            else:
+                line, bits, ts = metric_line(rnd, invalid_p=0.05, ts=rnd.choice([1500000015, 1500000001, 200015]))
+                seen.append("in %s %d %d" % (hx(line), bits, ts))
+                out.append(seen[-1])
+        out.append("pump")
+        for _ in range(rnd.randint(1, 2)):
+            k = rnd.random()
+            real = [i for i, r in enumerate(routes) if r[0] != "cap"]
+            if k < 0.2:
+                r = rewriter(rnd)
+                out.append("addrw %s %s %s %d" % (hx(r[0]), hx(r[1]), hx(r[2]), r[3]))
+                nrw += 1
+            elif k < 0.4:
+                i = rnd.randint(0, nrw + 1) if rnd.random() < 0.25 else rnd.randint(0, max(nrw - 1, 0))
+                out.append("delrw %d" % i)
+                if i < nrw:
+                    nrw -= 1
+            elif k < 0.5:
+                out.append(mline("addbl", matcher(rnd, 0.3)))
+                nbl += 1
+            elif k < 0.6:
+                i = rnd.randint(0, nbl + 1) if rnd.random() < 0.25 else rnd.randint(0, max(nbl - 1, 0))
+                out.append("delbl %d" % i)
+                if i < nbl:
+                    nbl -= 1
+            elif k < 0.85 and real:
+                out.append("modroute %d %s" % (rnd.choice(real), " ".join(hx(x) for x in matcher(rnd, 0.3))))
+            elif real:
+                ri = rnd.choice(real)
+                di = rnd.randint(0, routes[ri][1] + 1) if rnd.random() < 0.2 else rnd.randint(0, max(routes[ri][1] - 1, 0))
+                out.append("moddest %d %d %s" % (ri, di, " ".join(hx(x) for x in matcher(rnd, 0.3))))
+    for _ in range(rnd.randint(*nlines)):
+        if seen and rnd.random() < 0.7:
+            out.append(rnd.choice(seen))
+        else:
+            line, bits, ts = metric_line(rnd, invalid_p=0.05, ts=1500000015)
+            out.append("in %s %d %d" % (hx(line), bits, ts))
+    out += ["pump", "bad"]
+    return out
+
+
+def history_cases(rnd, n, **kw):
+    return [("h%d" % i, history_case(rnd, **kw)) for i in range(n)]
+
+
+HISTORY_REMOVABLE = lambda l: l.startswith(("in ", "inm ", "aggin ", "addrw", "delrw", "addbl", "delbl", "modroute", "moddest"))
